@@ -265,11 +265,17 @@ type OnceCase struct {
 	// Zero: the first run of the callback returns the zero value of the result type (later runs, which
 	// must not happen, would return something else).
 	Zero bool `json:"zero,omitempty"`
+	// Sweep: the cache is created with a default lifetime of 0 (entries never expire) instead of NoExpiration, and
+	// DeleteExpired is called after every call of Once: a sweep must not remove an entry that has no deadline.
+	Sweep bool `json:"sweep,omitempty"`
 }
 
 func onceProp(c OnceCase, r *pbt.R) error {
 	calls := clamp(c.Calls, 0, hardMaxCall)
 	cc := cache.New[string, int](cache.NoExpiration, 0)
+	if c.Sweep {
+		cc = cache.New[string, int](0, 0)
+	}
 	count := 0
 	first := 0
 	for i := 1; i <= calls; i++ {
@@ -288,7 +294,7 @@ func onceProp(c OnceCase, r *pbt.R) error {
 			want = 1
 		}
 		if ran != want {
-			return fmt.Errorf("Once, %d calls on a fresh non-expiring cache (first result zero: %v): call %d ran the callback %d time(s), want %d", calls, c.Zero, i, ran, want)
+			return fmt.Errorf("Once, %d calls on a fresh non-expiring cache (first result zero: %v; DeleteExpired after every call: %v): call %d ran the callback %d time(s), want %d", calls, c.Zero, c.Sweep, i, ran, want)
 		}
 		if i == 1 {
 			first = 100 + count // result of the first (and only) run
@@ -298,6 +304,9 @@ func onceProp(c OnceCase, r *pbt.R) error {
 		}
 		if got != first {
 			return fmt.Errorf("Once, %d calls on a fresh non-expiring cache: call %d returned %d, want the first result %d", calls, i, got, first)
+		}
+		if c.Sweep {
+			cc.DeleteExpired()
 		}
 	}
 	r.NonTrivialIf(calls >= 1, "called")
@@ -582,12 +591,16 @@ func retryLabels(r *pbt.R, n int, pat string) {
 
 func retryProp(c RetryCase, r *pbt.R) error {
 	n := clamp(c.N, -hardMaxCall, hardMaxCall)
-	rec := &recorder{pat: c.Pat, limit: modelRetry(n, c.Pat).calls + 3}
-	const input = 7
-	attempts, err := gogu.RType[int]{Input: input}.Retry(n, func(int) error { return rec.invoke() })
-	ctx := fmt.Sprintf("Retry(n=%d) with callback pattern %q", n, c.Pat)
-	if e := checkOutcome(ctx, n, c.Pat, rec, attempts, err, true); e != nil {
-		return e
+	// ONE RType value serves three consecutive Retry calls: every call is a retry loop of its own (a variable, not a
+	// composite literal, so that the harness also builds should the methods ever take a pointer receiver)
+	rt := gogu.RType[int]{Input: 7}
+	for round := 1; round <= 3; round++ {
+		rec := &recorder{pat: c.Pat, limit: modelRetry(n, c.Pat).calls + 3}
+		attempts, err := rt.Retry(n, func(int) error { return rec.invoke() })
+		ctx := fmt.Sprintf("Retry(n=%d) with callback pattern %q (call %d on the same RType value)", n, c.Pat, round)
+		if e := checkOutcome(ctx, n, c.Pat, rec, attempts, err, true); e != nil {
+			return e
+		}
 	}
 	retryLabels(r, n, c.Pat)
 	return nil
@@ -600,7 +613,13 @@ func delayProp(c DelayCase, r *pbt.R) error {
 	shape := clamp(c.L, 0, nLatShapes-1)
 	rec := &recorder{pat: c.Pat, limit: modelRetry(n, c.Pat).calls + 3, lat: func(call int) time.Duration { return latency(shape, call, d) }}
 	t0 := time.Now()
-	elapsed, attempts, err := gogu.RType[int]{Input: 7}.RetryWithDelay(n, d, func(time.Duration, int) error { return rec.invoke() })
+	rt := gogu.RType[int]{Input: 7}
+	if n >= 1 && n <= 3 && d <= 5*time.Millisecond {
+		// a first retry loop on the same RType value (its outcome is checked by the loop below on a fresh recorder)
+		warm := &recorder{pat: c.Pat, limit: modelRetry(n, c.Pat).calls + 3}
+		rt.RetryWithDelay(n, d, func(time.Duration, int) error { return warm.invoke() })
+	}
+	elapsed, attempts, err := rt.RetryWithDelay(n, d, func(time.Duration, int) error { return rec.invoke() })
 	t1 := time.Now()
 	ctx := fmt.Sprintf("RetryWithDelay(n=%d, delay=%v) with callback pattern %q, invocation durations of shape %d (%v, %v, %v, ...)", n, d, c.Pat, shape, latency(shape, 1, d), latency(shape, 2, d), latency(shape, 3, d))
 	if e := checkOutcome(ctx, n, c.Pat, rec, attempts, err, false); e != nil {
@@ -656,15 +675,15 @@ func TestProp(t *testing.T) {
 		&pbt.Check[OnceCase]{
 			Name: "once",
 			Rule: "Once(cache, fn) called k times in a row on a fresh non-expiring cache with a new counting closure per call returning a fresh value (the first run returns either a non-zero value or the zero value 0 of the int result type); " +
-				"enumerated: every k in 0..12 (thorough 0..64) x {non-zero, zero first result}; random: k in 0..400. Oracle: exactly one invocation (during the first call), every call returns the first result. " +
+				"enumerated: every k in 0..12 (thorough 0..64) x {non-zero, zero first result} x {NoExpiration cache, cache with default lifetime 0 swept by DeleteExpired after every call}; random: k in 0..400. Oracle: exactly one invocation (during the first call), every call returns the first result. " +
 				"Non-trivial = at least one call was made.",
 			Enum: func(s pbt.Src, thorough bool) OnceCase {
 				if thorough {
-					return OnceCase{Calls: pbt.Range(s, 0, 64), Zero: pbt.Bool(s)}
+					return OnceCase{Calls: pbt.Range(s, 0, 64), Zero: pbt.Bool(s), Sweep: pbt.Bool(s)}
 				}
-				return OnceCase{Calls: pbt.Range(s, 0, 12), Zero: pbt.Bool(s)}
+				return OnceCase{Calls: pbt.Range(s, 0, 12), Zero: pbt.Bool(s), Sweep: pbt.Bool(s)}
 			},
-			Gen:  func(s pbt.Src, _ bool) OnceCase { return OnceCase{Calls: pbt.Range(s, 0, 400), Zero: pbt.Bool(s)} },
+			Gen:  func(s pbt.Src, _ bool) OnceCase { return OnceCase{Calls: pbt.Range(s, 0, 400), Zero: pbt.Bool(s), Sweep: pbt.Bool(s)} },
 			Prop: onceProp,
 			OutOfEnum: func(c OnceCase, thorough bool) bool {
 				if thorough {
@@ -696,7 +715,7 @@ func TestProp(t *testing.T) {
 		},
 		&pbt.Check[RetryCase]{
 			Name: "retry",
-			Rule: "RType[int].Retry(n, fn); invocation i of fn succeeds iff pattern[i] = 'S', invocations beyond the pattern fail, every failure is a distinct error value; " +
+			Rule: "RType[int].Retry(n, fn), three times in a row on ONE RType value (each call is a retry loop of its own); invocation i of fn succeeds iff pattern[i] = 'S', invocations beyond the pattern fail, every failure is a distinct error value; " +
 				scopeText + " x every pattern of length 0..8 (0..12); random: n in -20..40, patterns shaped relative to n (success within the budget / exactly n failures / more than n failures + tail / up to 40 failures + tail). " +
 				"Oracle: invocations = min(n, position of the first success), 0 for n <= 0; reported attempts = failed invocations; error nil after a success, else errors.Is(the error of the nth invocation); " +
 				"the error for n <= 0 is not asserted. Non-trivial = n >= 1 and the pattern is consumed exactly, one letter per invocation " +
